@@ -124,9 +124,19 @@ class Result:
             fid = f.get('id', '?')
             self.known[fid] = self.known.get(fid, 0) + 1
             return
-        if len(self.violations) < cap:
+        # at most 12 witnesses per distinct mechanism, so that one frequent
+        # defect does not use up the room and mask a different one
+        if self._room(witness, cap):
             self.violations.append(witness)
         self.count('violations_total')
+
+    def _room(self, witness: dict, cap: int = 200) -> bool:
+        if len(self.violations) >= cap:
+            return False
+        key = json.dumps(witness.get('mechanism'), sort_keys=True, default=str)
+        per = self.__dict__.setdefault('_per_mech', {})
+        per[key] = per.get(key, 0) + 1
+        return per[key] <= 12
 
     def merge(self, other: dict):
         """Merge the JSON dict produced by a shard (`Result.to_shard()`)."""
@@ -138,7 +148,7 @@ class Result:
         for s in other.get('samples', []):
             self.sample(s)
         for v in other.get('violations', []):
-            if len(self.violations) < 200:
+            if self._room(v):
                 self.violations.append(v)
         for r in other.get('inconclusive', []):
             self.inconclusive.append(r)
@@ -221,7 +231,13 @@ def finish(res: Result, min_nontrivial: int = 2) -> int:
                 pass
     if new_violations:
         d.mkdir(parents=True, exist_ok=True)
-        for i, w in enumerate(new_violations[:20]):
+        # replay files: every distinct mechanism first, then the rest, 40 at most
+        seen, firsts, rest = set(), [], []
+        for w in new_violations:
+            k = json.dumps(w.get('mechanism'), sort_keys=True, default=str)
+            (rest if k in seen else firsts).append(w)
+            seen.add(k)
+        for i, w in enumerate((firsts + rest)[:40]):
             p = d / f'{res.tier}-seed{res.seed}-{i}.json'
             p.write_text(json.dumps(_jsonable(w), indent=1, default=repr))
             replay_paths.append(p)
